@@ -251,7 +251,23 @@ def run_C20(ctx, model_available=True):
         a.order_time_length = rng.choice([1, 3])
         for m in mks:
             trade(m, round(rng.uniform(250, 350), 2))
-        index = idx.get_index()
+        if rng.random() < 0.5:
+            # an earlier activation in the same step (agents are consulted several times per step and
+            # prices move in between): whatever it computed must not be reused after prices changed
+            a.submit_orders(markets=sim.markets)
+            idx.get_index()
+            idx.get_market_index()
+            for m in mks:
+                if rng.random() < 0.7:
+                    trade(m, round(rng.uniform(250, 350), 2))
+        # the index computed independently of the index market: share-weighted average of the
+        # components' current market prices
+        shares = [m.outstanding_shares for m in mks]
+        index = sum(m.get_market_price() * sh for m, sh in zip(mks, shares)) / sum(shares)
+        if not math.isclose(idx.get_index(), index, rel_tol=1e-12):
+            add_v(viol("C20/index-seen-by-arbitrage-agent-stale-or-wrong", "the computed index the agent compares with is the share-weighted average of the components' current market prices",
+                       {"index_market_says": idx.get_index(), "weighted_average_now": index,
+                        "component_prices": [m.get_market_price() for m in mks]}, {"kind": "arb-index", "n": n}))
         mode = rng.random()
         a.order_threshold_price = rng.choice([0.5, 1.0, 2.0])
         if mode < 0.2:
